@@ -77,6 +77,7 @@ type methodSet map[string]*ssa.Function
 
 // State shared between all interpreted goroutines.
 type interpreter struct {
+	extCaller          *frame                 // frame that invoked the external being executed (scheduling-point filter)
 	osArgs             []value                // the value of os.Args
 	prog               *ssa.Program           // the SSA program
 	globals            map[*ssa.Global]*value // addresses of global variables (immutable)
@@ -597,6 +598,7 @@ func callSSA(i *interpreter, caller *frame, callpos token.Pos, fn *ssa.Function,
 				fmt.Fprintln(os.Stderr, "\t(external)")
 			}
 			i.touchArgs(args)
+			i.extCaller = caller
 			return ext(fr, args)
 		}
 		if fn.Blocks == nil {
